@@ -40,6 +40,19 @@
 //     hist=1 object history after the last sync: rebuild() on the synced RemoteIndices (must be a no-op), then an empty resize
 //            (seqNo++, isSynced() false), rebuild() again (free() of the lists the syncer allocated + full rebuild);
 //            the line gets a section  # H <world after the no-op rebuild> ## <world after the real rebuild>
+//   --- dimension audit 2 ---
+//     fx=b,b,..  per-rank useFixedOrder (overrides `fixed` on every rank): ranks of ONE collective sync use different modes
+//     nm=n,n,..  per-rank numberer mode (overrides `num`): sync() on some ranks, sync(numberer[, fixed]) on others
+//     gs=1|2|3   where the global indices of the case sit in the value range of GlobalIndex (order preserving shift, the dumps
+//                shift back): 1 = around the sign boundary (int/long: from -7, i.e. negative and positive; bigunsignedint<96>:
+//                from 2^95-7, across the top bit), 2 = from the minimum of the type, 3 = the largest global of the case ON its maximum (2: the smallest ON the minimum)
+//     ao=1|2     the pairs are add()ed to the index set in descending (1) / scrambled (2) order instead of ascending, and the
+//                neighbour hints are passed descending with every rank listed twice (neither interface asks for an order)
+//     st2=k:g.g:g::..  SECOND STAGE on the state the first sync left (one ':' field per rank, globals '.'-separated): every rank
+//                deletes the listed copies again (same deletion path) and the world is synced again with a fresh IndicesSyncer (k=1),
+//                with the SAME object that ran the first sync (k=2: its addedIndices_/globalMap_/oldMap_/infoSend_/iteratorsMap_
+//                have been used) or with a copy of it (k=3); numberer as in the first stage (old numbers = those before THIS
+//                deletion).  The line gets a section  # U <world after the 2nd deletion> ## <world after the 2nd sync>
 // Output: ONE line per case, printed by rank 0:
 //   B <world> # D <world> # S <world>
 //   world  = rank dumps joined by " / ";  rank dump = "I g.a.l.p ... R q:g.la.ra.k,... q:... Y s N g,g,.."
@@ -49,6 +62,7 @@
 // Failing assertions / sanitizer reports / crashes end the process; vcheck.run_cases attributes them to the case.
 #include <config.h>
 #include <mpi.h>
+#include <algorithm>
 #include <csignal>
 #include <cstdio>
 #include <cstdlib>
@@ -77,10 +91,21 @@ static void pmpi_sched_reseed(unsigned long long) {}
 enum Flag { none_ = 0, owner = 1, overlap = 2, copy_ = 3 };
 typedef Dune::ParallelLocalIndex<Flag> LI;
 static const long GSHIFT = 1L << 40;
-template<class G> struct Shift { static G to(int g) { return (G) g; } static long back(G g) { return (long) g; } };
+static int g_gs = 0;       // gs= option of the current case
+static long g_gmin = 0, g_gmax = 0;   // smallest / largest global of the case: gs=2 puts g_gmin ON the minimum of the type, gs=3 g_gmax ON its maximum
 typedef Dune::bigunsignedint<96> Big;
-template<> struct Shift<Big> { static Big to(int g) { return (Big(1u) << 90) + Big((unsigned) g); } static long back(const Big& g) { return (long) (g - (Big(1u) << 90)).touint(); } };
-template<> struct Shift<long> { static long to(int g) { return GSHIFT + g; } static long back(long g) { return g - GSHIFT; } };
+template<class G> struct Shift {       // int
+  static long base() { return g_gs == 1 ? -7L : g_gs == 2 ? (long) std::numeric_limits<int>::min() - g_gmin : g_gs == 3 ? (long) std::numeric_limits<int>::max() - g_gmax : 0L; }
+  static G to(int g) { return (G) (base() + g); } static long back(G g) { return (long) g - base(); } };
+template<> struct Shift<Big> {
+  static Big base() { Big top = Big(1u) << 95;
+                      return g_gs == 1 ? top - Big(7u) : g_gs == 2 ? Big(0u) : g_gs == 3 ? (top + (top - Big(1u))) - Big((unsigned) g_gmax) : (Big(1u) << 90); }
+  static long lo() { return g_gs == 2 ? g_gmin : 0; }
+  static Big to(int g) { return base() + Big((unsigned) (g - lo())); } static long back(const Big& g) { return (long) (g - base()).touint() + lo(); } };
+template<> struct Shift<long> {     // to(g) = base + (g - lo): no intermediate leaves the range of long
+  static long base() { return g_gs == 1 ? -7L : g_gs == 2 ? std::numeric_limits<long>::min() : g_gs == 3 ? std::numeric_limits<long>::max() : GSHIFT; }
+  static long lo() { return g_gs == 2 ? g_gmin : g_gs == 3 ? g_gmax : 0; }
+  static long to(int g) { return base() + (g - lo()); } static long back(long g) { return (g - base()) + lo(); } };
 
 static int g_rank = 0;
 static volatile long g_case = 0;
@@ -96,7 +121,9 @@ struct Quad { int g, a, pub; long l; };
 struct Case { int P, fixed, num; char del; unsigned long long seed; std::vector<std::vector<Quad> > I; std::vector<std::vector<int> > D;
               std::vector<std::pair<int,int> > forget;
               int nb = 0, self = 0, ign = 0, gt = 0, twice = 0, nobar = 0, mc = 0, sf = 0, da = 0, ck = 0, hist = 0;
-              std::vector<int> cm;
+              std::vector<int> cm, fx, nm;
+              int gs = 0, ao = 0, st2 = 0;
+              std::vector<std::vector<int> > D2;
               std::vector<std::vector<int> > hints;
               struct Grow { int p, g, a; long l; std::vector<std::pair<int,int> > to; };
               std::vector<Grow> grow; };
@@ -141,6 +168,21 @@ static bool parse(const std::string& line, Case& c)
     else if (k == "ck") c.ck = std::atoi(v.c_str());
     else if (k == "hist") c.hist = std::atoi(v.c_str());
     else if (k == "cm") { std::istringstream ms(v); std::string q; while (std::getline(ms, q, ',')) if (!q.empty()) c.cm.push_back(std::atoi(q.c_str())); }
+    else if (k == "gs") c.gs = std::atoi(v.c_str());
+    else if (k == "ao") c.ao = std::atoi(v.c_str());
+    else if (k == "fx" || k == "nm") { std::istringstream ms(v); std::string q; while (std::getline(ms, q, ',')) if (!q.empty()) (k == "fx" ? c.fx : c.nm).push_back(std::atoi(q.c_str())); }
+    else if (k == "st2") {
+      std::size_t c0 = v.find(':'); if (c0 == std::string::npos) return false;
+      c.st2 = std::atoi(v.substr(0, c0).c_str());
+      std::string rest = v.substr(c0 + 1); c.D2.clear(); c.D2.push_back({});
+      std::string cur;
+      for (char ch : rest + ":") {
+        if (ch == '.' || ch == ':') { if (!cur.empty()) c.D2.back().push_back(std::atoi(cur.c_str())); cur.clear(); if (ch == ':') c.D2.push_back({}); }
+        else cur += ch;
+      }
+      c.D2.pop_back();
+      if ((int) c.D2.size() != c.P) return false;
+    }
     else if (k[0] == 'h') {
       int p = std::atoi(k.c_str() + 1); if (p < 0 || p >= c.P) return false;
       std::istringstream hs(v); std::string q;
@@ -241,11 +283,26 @@ static std::string run_case_t(const Case& c, MPI_Comm comm, int rank)
   typedef typename RI::Allocator Alloc;
   typedef Dune::RemoteIndex<G, Flag> REntry;
   PIS is;
+  g_gs = c.gs;
+  {
+    bool any = false; g_gmin = g_gmax = 0;
+    auto see = [&](long g) { if (!any || g < g_gmin) g_gmin = g; if (!any || g > g_gmax) g_gmax = g; any = true; };
+    for (auto& r : c.I) for (auto& q : r) see(q.g);
+    for (auto& gr : c.grow) see(gr.g);
+  }
+  const int myfixed = c.fx.empty() ? c.fixed : c.fx[rank];
+  const int mynum = c.nm.empty() ? c.num : c.nm[rank];
   is.beginResize();
-  for (const Quad& q : c.I[rank]) is.add(Shift<G>::to(q.g), LI((std::size_t) q.l, (Flag) q.a, q.pub != 0));
+  {
+    std::vector<Quad> qs = c.I[rank];
+    if (c.ao == 1) std::reverse(qs.begin(), qs.end());
+    else if (c.ao == 2) std::sort(qs.begin(), qs.end(), [](const Quad& x, const Quad& y) { long a = (x.g * 7919L + 13) % 101, b = (y.g * 7919L + 13) % 101; return a < b || (a == b && x.g > y.g); });
+    for (const Quad& q : qs) is.add(Shift<G>::to(q.g), LI((std::size_t) q.l, (Flag) q.a, q.pub != 0));
+  }
   is.endResize();
   // ---- rebuild: ring, or neighbour hints through the constructor / setNeighbours; includeSelf; ignorePublic
   std::vector<int> hints = c.hints[rank];
+  if (c.ao) { std::vector<int> h2(hints.rbegin(), hints.rend()); h2.insert(h2.end(), hints.begin(), hints.end()); hints = h2; hints.reserve(hints.size() + 37); }
   bool selfarg = c.da && c.self && c.nb == 1;
   RI ri0(is, is, comm, c.nb == 1 ? hints : std::vector<int>(), selfarg);
   if (c.nb == 2) ri0.setNeighbours(hints);
@@ -267,12 +324,11 @@ static std::string run_case_t(const Case& c, MPI_Comm comm, int rank)
   }
   RI& ri = hand ? ri1 : ri0;
 
-  RecNumberer<G> numb; numb.mode = c.num;
+  RecNumberer<G> numb; numb.mode = mynum;
   for (auto it = is.begin(); it != is.end(); ++it) numb.old[Shift<G>::back(it->global())] = (long) it->local().local();
 
-  // ---- deletion of the chosen copies together with their remote entries
-  std::set<G> del;
-  for (int g : c.D[rank]) del.insert(Shift<G>::to(g));
+  // ---- deletion of the chosen copies together with their remote entries (a function: the second stage st2= uses it again)
+  auto do_delete = [&](const std::set<G>& del) {
   if (!del.empty()) {
     std::vector<int> nb;
     for (auto r = ri.begin(); r != ri.end(); ++r) nb.push_back(r->first);
@@ -310,6 +366,12 @@ static std::string run_case_t(const Case& c, MPI_Comm comm, int rank)
       is.endResize();
       Dune::repairLocalIndexPointers(gmap, ri, is);
     }
+  }
+  };
+  {
+    std::set<G> del;
+    for (int g : c.D[rank]) del.insert(Shift<G>::to(g));
+    do_delete(del);
   }
   // ---- growth: new pairs with hand-inserted remote entries (RemoteIndexListModifier<..,true>::insert(index, global))
   {
@@ -364,9 +426,9 @@ static std::string run_case_t(const Case& c, MPI_Comm comm, int rank)
   // ---- sync
   pmpi_sched_reseed(c.seed);
   Syncer syncer(is, ri);
-  if (c.num == 0) syncer.sync();
-  else if (c.da && !c.fixed) syncer.sync(numb);               // useFixedOrder defaulted
-  else syncer.sync(numb, c.fixed != 0);
+  if (mynum == 0) syncer.sync();
+  else if (c.da && !myfixed) syncer.sync(numb);               // useFixedOrder defaulted
+  else syncer.sync(numb, myfixed != 0);
   pmpi_sched_reseed(0);
   std::string S = gather(dump(is, ri, &numb.calls), comm, c.P, rank);
   std::string res = "B " + B + " # D " + D + " # S " + S;
@@ -375,11 +437,38 @@ static std::string run_case_t(const Case& c, MPI_Comm comm, int rank)
     RecNumberer<G> numb2; numb2.mode = 2;
     if (!c.nobar) MPI_Barrier(comm);      // see nobar= in the header comment
     pmpi_sched_reseed(c.seed + 1);
-    if (c.twice == 2) syncer.sync(numb2, c.fixed != 0);
-    else if (c.twice == 3) { Syncer copy(syncer); copy.sync(numb2, c.fixed != 0); }
-    else { Syncer syncer2(is, ri); syncer2.sync(numb2, c.fixed != 0); }
+    if (c.twice == 2) syncer.sync(numb2, myfixed != 0);
+    else if (c.twice == 3) { Syncer copy(syncer); copy.sync(numb2, myfixed != 0); }
+    else { Syncer syncer2(is, ri); syncer2.sync(numb2, myfixed != 0); }
     pmpi_sched_reseed(0);
     res += " # T " + gather(dump(is, ri, &numb2.calls), comm, c.P, rank);
+  }
+  if (c.st2 && !c.twice && !c.hist) {
+    // ---- second stage on the state the first sync left: delete again, sync again (fresh / SAME / copied syncer object)
+    RecNumberer<G> numb2; numb2.mode = mynum;
+    for (auto it = is.begin(); it != is.end(); ++it) numb2.old[Shift<G>::back(it->global())] = (long) it->local().local();
+    std::set<G> del2;
+    for (int g : c.D2[rank]) del2.insert(Shift<G>::to(g));
+    do_delete(del2);
+    std::string D2 = gather(dump(is, ri, 0), comm, c.P, rank);
+    int bad = 0, anybad = 0;
+    {
+      std::set<const typename PIS::IndexPair*> addr;
+      for (auto it = is.begin(); it != is.end(); ++it) addr.insert(&(*it));
+      for (auto r = ri.begin(); r != ri.end(); ++r)
+        for (auto e = r->second.first->begin(); e != r->second.first->end(); ++e)
+          if (!addr.count(&e->localIndexPair())) { bad = 1; break; }
+    }
+    MPI_Allreduce(&bad, &anybad, 1, MPI_INT, MPI_MAX, comm);
+    if (anybad) return res + " # U " + D2 + " ## SKIPPED";
+    MPI_Barrier(comm);                      // (rounds of consecutive arrival-order syncs must not overlap: known finding C13-6)
+    pmpi_sched_reseed(c.seed + 2);
+    auto run2 = [&](Syncer& sy) { if (mynum == 0) sy.sync(); else sy.sync(numb2, myfixed != 0); };
+    if (c.st2 == 2) run2(syncer);
+    else if (c.st2 == 3) { Syncer copy(syncer); run2(copy); }
+    else { Syncer syncer2(is, ri); run2(syncer2); }
+    pmpi_sched_reseed(0);
+    res += " # U " + D2 + " ## " + gather(dump(is, ri, &numb2.calls), comm, c.P, rank);
   }
   if (c.hist == 1) {
     if (c.ign) ri.template rebuild<true>(); else ri.template rebuild<false>();          // synced: must not touch anything
